@@ -39,3 +39,8 @@ Proof. induction l as [|x l IH]; simpl; [reflexivity | rewrite IH; reflexivity].
 
 Lemma existsb_map {A B} (f : B -> bool) (g : A -> B) l : existsb f (map g l) = existsb (fun x => f (g x)) l.
 Proof. induction l as [|x l IH]; simpl; [reflexivity | rewrite IH; reflexivity]. Qed.
+
+Lemma nth_map_lt {A B} (f : A -> B) l n d d' : n < length l -> nth n (map f l) d = f (nth n l d').
+Proof.
+  revert n; induction l as [|x r IH]; intros [|n] L; simpl in *; try lia; [reflexivity|]. apply IH. lia.
+Qed.
